@@ -151,6 +151,179 @@ func (p *pkg) receiverWrites(fd *ast.FuncDecl) []string {
 	return out
 }
 
+// credParam reports whether name is a parameter (or the receiver) of fd.
+func credParam(fd *ast.FuncDecl, name string) bool {
+	for _, l := range []*ast.FieldList{fd.Recv, fd.Type.Params} {
+		if l == nil {
+			continue
+		}
+		for _, f := range l.List {
+			for _, id := range f.Names {
+				if id.Name == name {
+					return true
+				}
+			}
+		}
+	}
+	return false
+}
+
+// credLocalDef finds the single definition `name := rhs` / `var name T` of a
+// local variable; n counts the definitions and assignments to it.
+func credLocalDef(fd *ast.FuncDecl, name string) (rhs ast.Expr, varType ast.Expr, n int) {
+	ast.Inspect(fd.Body, func(nd ast.Node) bool {
+		switch s := nd.(type) {
+		case *ast.AssignStmt:
+			for i, l := range s.Lhs {
+				if id, ok := l.(*ast.Ident); ok && id.Name == name {
+					n++
+					if len(s.Lhs) == len(s.Rhs) {
+						rhs = s.Rhs[i]
+					} else {
+						rhs = nil
+						n += 10 // multi-value: not followed
+					}
+				}
+			}
+		case *ast.DeclStmt:
+			if gd, ok := s.Decl.(*ast.GenDecl); ok && gd.Tok == token.VAR {
+				for _, sp := range gd.Specs {
+					vs := sp.(*ast.ValueSpec)
+					for i, id := range vs.Names {
+						if id.Name == name {
+							n++
+							varType = vs.Type
+							if i < len(vs.Values) {
+								rhs = vs.Values[i]
+							}
+						}
+					}
+				}
+			}
+		}
+		return true
+	})
+	return
+}
+
+// credOrigin says where the memory of a returned []byte comes from:
+//   "nil"                     no memory
+//   "fresh"                   a buffer made inside the function (new(bytes.Buffer) / var bytes.Buffer / make /
+//                             a composite literal / append to one of those / the Bytes() of such a buffer)
+//   "view-of-param <p>"       a sub-slice of the parameter p (the caller's memory, by design)
+//   "param <p>"               the parameter itself
+//   "append-to-param <p>"     append(p, ...): in place whenever p has spare capacity
+//   "Unknown <text>"          anything else
+func (p *pkg) credOrigin(fd *ast.FuncDecl, e ast.Expr, depth int) string {
+	unknown := "Unknown " + p.src(e)
+	if depth > 5 {
+		return unknown
+	}
+	freshType := func(t ast.Expr) bool {
+		s := p.src(t)
+		return s == "bytes.Buffer" || s == "[]byte"
+	}
+	switch x := e.(type) {
+	case *ast.ParenExpr:
+		return p.credOrigin(fd, x.X, depth+1)
+	case *ast.Ident:
+		if x.Name == "nil" {
+			return "nil"
+		}
+		if credParam(fd, x.Name) {
+			return "param " + x.Name
+		}
+		rhs, vt, n := credLocalDef(fd, x.Name)
+		if n != 1 {
+			return unknown
+		}
+		if rhs == nil {
+			if vt != nil && freshType(vt) {
+				return "fresh"
+			}
+			return unknown
+		}
+		return p.credOrigin(fd, rhs, depth+1)
+	case *ast.CompositeLit:
+		return "fresh"
+	case *ast.UnaryExpr:
+		if x.Op == token.AND {
+			if _, ok := x.X.(*ast.CompositeLit); ok {
+				return "fresh"
+			}
+		}
+	case *ast.SliceExpr:
+		o := p.credOrigin(fd, x.X, depth+1)
+		if strings.HasPrefix(o, "param ") {
+			return "view-of-" + o
+		}
+		return o
+	case *ast.CallExpr:
+		if id, ok := x.Fun.(*ast.Ident); ok {
+			switch id.Name {
+			case "make":
+				return "fresh"
+			case "new":
+				if len(x.Args) == 1 && freshType(x.Args[0]) {
+					return "fresh"
+				}
+			case "append":
+				if len(x.Args) > 0 {
+					o := p.credOrigin(fd, x.Args[0], depth+1)
+					switch {
+					case o == "fresh":
+						return "fresh"
+					case o == "nil":
+						return "fresh"
+					case strings.HasPrefix(o, "param "), strings.HasPrefix(o, "view-of-param "):
+						return "append-to-" + strings.TrimPrefix(o, "view-of-")
+					}
+					return unknown
+				}
+			}
+		}
+		if sel, ok := x.Fun.(*ast.SelectorExpr); ok && sel.Sel.Name == "Sum" && len(x.Args) == 1 {
+			// hash.Hash.Sum(b) appends the digest to b
+			o := p.credOrigin(fd, x.Args[0], depth+1)
+			switch {
+			case o == "nil", o == "fresh":
+				return "fresh"
+			case strings.HasPrefix(o, "param "), strings.HasPrefix(o, "view-of-param "):
+				return "append-to-" + strings.TrimPrefix(o, "view-of-")
+			}
+			return unknown
+		}
+		if sel, ok := x.Fun.(*ast.SelectorExpr); ok && sel.Sel.Name == "Bytes" && len(x.Args) == 0 {
+			if p.credOrigin(fd, sel.X, depth+1) == "fresh" {
+				return "fresh"
+			}
+		}
+	}
+	return unknown
+}
+
+// credResultOrigins lists, for every return statement of fd (function
+// literals apart), the origin of result number idx.
+func (p *pkg) credResultOrigins(fd *ast.FuncDecl, idx int) []string {
+	var out []string
+	var walk func(n ast.Node) bool
+	walk = func(n ast.Node) bool {
+		switch s := n.(type) {
+		case *ast.FuncLit:
+			return false
+		case *ast.ReturnStmt:
+			if idx < len(s.Results) {
+				out = append(out, p.credOrigin(fd, s.Results[idx], 0))
+			} else {
+				out = append(out, "Unknown "+p.src(s))
+			}
+		}
+		return true
+	}
+	ast.Inspect(fd.Body, walk)
+	return out
+}
+
 // skeleton lists, in source order, what decides the outcome of a function.
 func (p *pkg) skeleton(fd *ast.FuncDecl) []string {
 	var out []string
@@ -383,6 +556,29 @@ func genCred(repo string) (string, error) {
 			first = false
 			fmt.Fprintf(&b, "(%s, [ %s ])", coqStr(o.pkg+"."+o.typ+"."+fd.Name.Name), strings.Join(items, "; "))
 		}
+	}
+	b.WriteString(" ].\n\n")
+
+	// where the memory of returned byte slices comes from
+	b.WriteString("(* For every return statement, the origin of the []byte result. *)\n")
+	b.WriteString("Definition gen_result_origins : list (string * list string) :=\n  [ ")
+	for i, f := range []struct {
+		recv, name string
+		idx        int
+	}{{"Signer", "Sign", 0}, {"Signer", "Check", 1}, {"Signer", "hash", 0}} {
+		fd := pkgs["signer"].funcDecl(f.recv, f.name)
+		var items []string
+		if fd == nil || fd.Body == nil {
+			items = append(items, coqStr("Unknown missing function"))
+		} else {
+			for _, o := range pkgs["signer"].credResultOrigins(fd, f.idx) {
+				items = append(items, coqStr(o))
+			}
+		}
+		if i > 0 {
+			b.WriteString(";\n    ")
+		}
+		fmt.Fprintf(&b, "(%s, [ %s ])", coqStr("signer."+f.recv+"."+f.name), strings.Join(items, "; "))
 	}
 	b.WriteString(" ].\n")
 	return b.String(), nil
